@@ -33,3 +33,56 @@ Theorem C08_dash_d_chain_refuted :
   | PErr _ => False
   end.
 Proof. vm_compute. reflexivity. Qed.
+
+From CC Require Import Model.MacroSpec Proofs.MacroFacts.
+
+(** token exactness, for EVERY text: \bNAME\b replacement substitutes exactly the identifier
+    tokens equal to the name, nothing else ... *)
+Theorem C08_replace_word_token_exact : forall name value s, wordy name ->
+  fst (replace_word name value s) = subst_tokens name value s.
+Proof. exact replace_word_token_exact. Qed.
+
+(** ... reports a change iff such a token exists ... *)
+Theorem C08_replace_word_changed_iff : forall name value s, wordy name ->
+  snd (replace_word name value s) = existsb (String.eqb name) (tokens s).
+Proof. exact replace_word_changed_iff. Qed.
+
+(** ... and never touches a longer identifier containing the name *)
+Theorem C08_inside_identifier_untouched : forall name value pre post,
+  wordy name -> wordy (pre ++ name ++ post) -> (pre <> "" \/ post <> "") ->
+  replace_word name value (pre ++ name ++ post) = (pre ++ name ++ post, false).
+Proof. exact replace_word_inside_identifier. Qed.
+
+(** a set of object-like macros whose values mention no macro name: one simultaneous token
+    substitution, complete after the rounds of replace_all *)
+Theorem C08_replace_all_independent : forall (ms : list (string * string)) s,
+  NoDup (map fst ms) -> (forall n v, In (n, v) ms -> wordy n) ->
+  (forall n v m, In (n, v) ms -> In m (map fst ms) -> existsb (String.eqb m) (tokens v) = false) ->
+  replace_all (map (fun nv => (fst nv, MObj (snd nv))) ms) s =
+  String.concat "" (map (fun t => match find (fun nv => String.eqb (fst nv) t) ms with
+                                  | Some nv => snd nv | None => t end) (tokens s)).
+Proof. exact replace_all_independent. Qed.
+
+(** arguments are captured by position, nested parentheses (four levels) included *)
+Theorem C08_capture_args_nested : forall args rest, Forall arg_ok args -> args <> [] ->
+  capture_args (S (String.length (String.concat "," args ++ ")" ++ rest))) (List.length args)
+               (String.concat "," args ++ ")" ++ rest) = Some (args, rest).
+Proof. exact capture_args_nested. Qed.
+
+(** and substituted by position *)
+Theorem C08_expand_template_param : forall ps args p,
+  NoDup ps -> List.length ps = List.length args -> In p ps -> wordy p ->
+  expand_template (S (String.length ("$" ++ p))) ("$" ++ p) ps args = nth (index_of p ps) args "".
+Proof. exact expand_template_param. Qed.
+
+(** a whole call: NAME(args) becomes the instantiated template *)
+Theorem C08_replace_call_whole : forall name ps tmpl args,
+  wordy name -> Forall arg_ok args -> args <> [] -> List.length ps = List.length args ->
+  replace_call name ps tmpl (name ++ "(" ++ String.concat "," args ++ ")")
+  = (expand_template (S (String.length tmpl)) tmpl ps args, true).
+Proof. exact replace_call_whole. Qed.
+
+(** #undef removes exactly the named macro *)
+Theorem C08_undefine_exact : forall ms n m, NoDup (map fst ms) ->
+  get_macro (undefine ms n) m = if String.eqb m n then None else get_macro ms m.
+Proof. exact undefine_exact. Qed.
